@@ -41,7 +41,7 @@ type dim struct {
 
 var dims = []dim{
 	{"holds-key", []string{"yes", "no"}},
-	{"cert", []string{"valid-root", "expired-root", "foreign-root", "self-signed", "server-auth", "own-ca-cert-then-victims-chain", "own-leaf-then-victims-chain"}},
+	{"cert", []string{"valid-root", "expired-root", "foreign-root", "self-signed", "server-auth", "own-ca-cert-then-victims-chain", "own-leaf-then-victims-chain", "other-registered-nodes-valid-chain"}},
 	{"record", []string{"present", "removed"}},
 	{"nonce-sig", []string{"own-key", "other-registered-key", "unregistered-key", "missing"}},
 	{"skip-flag", []string{"unset", "set"}},
@@ -234,6 +234,11 @@ func (w *world) build(v vector, nonceLabel string) (*harness.AuthClient, nodeenr
 			own = w.ownLeaf
 		}
 		c.Chain, key = [][]byte{own, b[w.validIdx].CertificateDer, b[w.validIdx].CaCertificateDer}, w.other
+	case 7:
+		// another node of the same server presents its own valid chain and key
+		// while replaying this node's request (the request travels in clear)
+		b2 := w.n2.Creds.CertificateBundles
+		c.Chain, key = [][]byte{b2[w.validIdx].CertificateDer, b2[w.validIdx].CaCertificateDer}, k2.Priv
 	}
 	if v[0] == 1 {
 		key = w.other
@@ -246,9 +251,13 @@ func (w *world) build(v vector, nonceLabel string) (*harness.AuthClient, nodeenr
 		c.Preference = "garbage-preference"
 	}
 	// reference predicate
-	possession := v[0] == 0 || v[1] >= 5 // kinds 5/6 always prove possession of their own first certificate
-	chain := v[1] == 0 || v[1] == 4      // the certificate whose key was proven chains to a currently valid root
-	var lookup []string                  // keys of the records the property says are consulted
+	possession := v[0] == 0 || v[1] == 5 || v[1] == 6 // kinds 5/6 always prove possession of their own first certificate
+	chain := v[1] == 0 || v[1] == 4                   // the certificate whose key was proven chains to a currently valid root
+	if v[1] == 7 {
+		// the key proven is the other node's, not the one the request was verified for
+		possession = false
+	}
+	var lookup []string // keys of the records the property says are consulted
 	switch {
 	case v[5] == 1:
 		if v[2] == 0 {
@@ -805,7 +814,7 @@ func init() {
 	engine.Register(&engine.CheckDef{
 		ID:    "C02",
 		Level: "exploration",
-		Rule: "hand-built TLS 1.3 clients against the real InterceptingListener over a loopback socket, 15 virtual days after enrollment (one root expired, one valid): product of 9 capability dimensions (holds key 2 x certificate 7 x record 2 x nonce signature 4 x skip flag 2 x node-id hint 5 x client state 3 x certificate preference 3 x common name 2 = 20160; quick: all vectors with at most 3 dishonest coordinates); every single-bit flip and truncation of an honest ALPN-carried request; well-formed fetch handshakes (authorized and not) in 5 ALPN arrangements, none of which may yield a connection; every vector with at most one dishonest coordinate again as the second connection of a listener that has just served a fetch handshake; BFS over register / remove / connect of two nodes with the real dialer; oracle: authenticated => possession proof, chain to a currently valid root, nonce (and state) signed by the key of a record the property says is consulted; " +
+		Rule: "hand-built TLS 1.3 clients against the real InterceptingListener over a loopback socket, 15 virtual days after enrollment (one root expired, one valid): product of 9 capability dimensions (holds key 2 x certificate 8 x record 2 x nonce signature 4 x skip flag 2 x node-id hint 5 x client state 3 x certificate preference 3 x common name 2 = 23040; quick: all vectors with at most 3 dishonest coordinates); every single-bit flip and truncation of an honest ALPN-carried request; well-formed fetch handshakes (authorized and not) in 5 ALPN arrangements, none of which may yield a connection; every vector with at most one dishonest coordinate again as the second connection of a listener that has just served a fetch handshake; BFS over register / remove / connect of two nodes with the real dialer; oracle: authenticated => possession proof, chain to a currently valid root, nonce (and state) signed by the key of a record the property says is consulted; " +
 			"distinct_nontrivial counts handshakes (distinct by construction) that completed on the server side with a verdict",
 		Assumptions: []string{"forged = signed with another pool key; captured signatures are modelled by giving the adversary the signature but not the TLS key", "the honest vector must authenticate (vacuity guard), other entitled vectors may be rejected"},
 		Shards:      func(c *engine.Ctx) int { return 16 },
